@@ -166,6 +166,9 @@ theorem log10_table : ((List.range 23).filter fun (k : Nat) =>
 theorem log_one : logAsm F64.one = F64.zero false ∧ log10 F64.one = F64.zero false ∧ log2 F64.one = F64.zero false := by
   decide +kernel
 
+/-- A float from its bit pattern given as a number (probe tables of `Rare.Gen.C11`). -/
+def bitsF (n : Nat) : F64 := F64.ofBits (UInt64.ofNat n)
+
 /-! ### the subnormal witness -/
 
 /-- The smallest subnormal, `5e-324 = 2^-1074`. -/
